@@ -360,10 +360,11 @@ class C18(Prop):
                    "inverse gamma, log-Laplace, log-normal: x > 0) and the Lean tail decision finds an axis point whose density "
                    "is robustly a positive double (normal or subnormal; every sub-product of its factors in [8 * 2**-1074, "
                    "2**1000]); UNDETERMINED: all densities below that band (underflow to exactly 0 on the whole axis gives "
-                   "0/0 = NaN: outside 'density finite on that axis' as before), and parameters for which an intermediate value "
-                   "of the coded expression may overflow although the density itself is representable (x ** (-alpha - 1) at a "
-                   "tiny x, gamma(alpha) * gamma(beta), sigma * sqrt(2 pi), beta ** alpha: pewlib then returns NaN - recorded "
-                   "as kernel:tail:intermediate-overflow:pewlib-returns-nan, see notes/EC18.md O1); outside the support (e.g. "
+                   "0/0 = NaN: outside 'density finite on that axis' as before); JUDGED, with failures routed to known finding "
+                   "C18-kernel-intermediate-overflow: parameters for which an intermediate value of the coded expression may "
+                   "overflow (x ** (-alpha - 1) at a tiny x, gamma(alpha) * gamma(beta), sigma * sqrt(2 pi), beta ** alpha, "
+                   "a * (a - b)) although the density itself is finite and robustly positive at its best axis point; "
+                   "outside the support (e.g. "
                    "beta with scale 2) the generators return NaN/negative weights and the property excludes them",
                    "histories: a second call with equal arguments is held to the same specification as the first (the model is a "
                    "function of its arguments); for convolve / deconvolve the argument arrays are (re)filled before every step, "
@@ -1007,8 +1008,13 @@ class C18(Prop):
             for k, band in enumerate(["subnormal"] * 4 + ["tiny-normal", "tiny-normal", "threshold", "all-zero"]):
                 yield self.gen_kernel_tail(random.Random(f"C18-tail-{name}-{k}"), name, band)
         # an intermediate value overflows (x ** (-alpha - 1) = inf at the first axis point, times exp(-beta / x) = 0):
-        # undetermined, what pewlib returns is recorded (notes/EC18.md, observation O1)
+        # judged against the property; the failures are known finding C18-kernel-intermediate-overflow (notes/EC18.md O1)
         yield {"kind": "kernel", "name": "inversegamma", "size": 3, "args": [51.0, 1.0], "scale": 1.0, "shift": 1e-6}
+        yield {"kind": "kernel", "name": "beta", "size": 3, "args": [90.0, 90.0], "scale": 1.0, "shift": 0.0}
+        yield {"kind": "kernel", "name": "beta", "size": 3, "args": [1.0, 172.0], "scale": 1.0, "shift": 0.0}
+        yield {"kind": "kernel", "name": "triangular", "size": 4, "args": [-1e200, 1e200], "scale": 1.0, "shift": 0.0}
+        yield {"kind": "kernel", "name": "normal", "size": 5, "args": [1e308, 0.0], "scale": 1.0, "shift": 0.0}
+        yield {"kind": "kernel", "name": "inversegamma", "size": 3, "args": [50.0, 1.0], "scale": 1.0, "shift": 1e-6}   # just inside: fine
         # magnitudes for the rational generator: supports and axes of the order 1e+-100
         for mag in (1e100, 1e-100, 1e140, 1e-140):
             yield K("triangular", 9, [-3.0 * mag, 2.0 * mag], mag, 0.0)
@@ -1757,20 +1763,19 @@ class C18(Prop):
         # the eight generators built from exp / log / powers: the model's weights and the TAIL DECISION (Lean): does
         # a double-precision evaluation of the densities have a positive finite sum, whatever order it multiplies in
         rk = tail = None
+        overflow = False
         if why is None and name != "triangular":
             margs = [float(int(v)) if name == "super_gaussian" and i == 2 else v for i, v in enumerate(args)]
             rk = ctx.driver.call("c18.kernel", name=name, size=size, args=[core.rat(v) for v in margs],
                                  scale=core.rat(scale), shift=core.rat(shift))
             tail = rk["tail"]
-            if tail["overflow"]:
-                why = "an intermediate value of the density leaves the double range on the axis (inf, inf * 0 = nan)"
-                feats.add("kernel:tail:intermediate-overflow(undetermined)")
-                try:
-                    o = np.asarray(getattr(cv, name)(tsize, *targs, scale=tscale, shift=tshift), dtype=float)
-                    if not np.all(np.isfinite(o)):
-                        feats.add("kernel:tail:intermediate-overflow:pewlib-returns-nan(recorded only)")
-                except Exception:      # noqa: BLE001
-                    feats.add("kernel:tail:intermediate-overflow:pewlib-raises(recorded only)")
+            if tail["overflow"] and tail["robust"]:
+                # an intermediate value of the coded expression may overflow somewhere on the axis (inf, inf * 0 = nan)
+                # although the density itself is finite everywhere and robustly a positive double at its best axis
+                # point: inside the quantifier, JUDGED against the property; a failure has the signature of known finding
+                # C18-kernel-intermediate-overflow (known())
+                overflow = True
+                feats.add("kernel:tail:intermediate-overflow(judged)")
             elif not tail["robust"]:
                 why = "no axis point carries a density robustly above the underflow threshold of double precision"
                 feats.add("kernel:tail:underflow-band-or-all-zero(undetermined)")
@@ -1796,8 +1801,12 @@ class C18(Prop):
                 why = "triangular: no axis point robustly inside the support (normalisation by a zero sum)"
             # the density is a quotient of products of the parameters: keep a * (a - b), b * (b - a) inside the normal range
             mags = [abs(v) for v in (a_, b_, b_ - a_) if v != 0] + [abs(v) for v in axq if v != 0]
-            if why is None and (max(mags) > Fraction(10) ** 150 or min(mags) < Fraction(1, 10 ** 150)):
-                why = "triangular: a product of the parameters may leave the normal range of double precision"
+            if why is None and min(mags) < Fraction(1, 10 ** 150):
+                why = "triangular: a product of the parameters may underflow"
+            elif why is None and max(mags) > Fraction(10) ** 150:
+                # a * (a - b) or b * (b - a) may overflow although the density is finite: judged, known finding
+                overflow = True
+                feats.add("kernel:tail:intermediate-overflow(judged)")
         if why is not None:
             return outcome({}, {}, {}, spec_ok=True, model_ok=True, undetermined=True,
                            features=feats | {"kernel:outside-domain"}, note=why)
@@ -1846,6 +1855,10 @@ class C18(Prop):
 
         impl, model, model_ok, x, valued = observe(out)
         spec = {"shape": [size, 2], "axis_matches_linspace": True, "finite": True, "non_negative": True, "sums_to_one": True}
+        if overflow:
+            impl["intermediate_overflow_possible"] = spec["intermediate_overflow_possible"] = True
+            if not (impl["finite"] and impl["non_negative"] and impl["sums_to_one"]):
+                feats.add("kernel:tail:intermediate-overflow:pewlib-returns-nan(known finding)")
         if hist is not None:
             # HISTORY: the caller edits the returned kernel in place and asks again with equal arguments; the property
             # speaks of every call's return value, so the second array must meet it (and the model) like the first
@@ -1960,6 +1973,13 @@ class C18(Prop):
 
     # ------------------------------------------------------------------ known findings / shrinking
     def known(self, case, out):
+        if case.get("kind") == "kernel" and "history" not in case:
+            i, sp = out["impl"], out["spec"]
+            # signature of C18-kernel-intermediate-overflow: the tail decision reports a possible overflow of an
+            # intermediate value, shape and axis are right, and what fails is finite / non-negative / unit sum
+            if i.get("intermediate_overflow_possible") and i.get("shape") == sp.get("shape") and i.get("axis_matches_linspace") \
+                    and not (i.get("finite") and i.get("non_negative") and i.get("sums_to_one")):
+                return "C18-kernel-intermediate-overflow"
         if case.get("kind") == "erfinv":
             bad = out["impl"].get("outside_tolerance", [])
             lim = F32_TINY if ty_parse(case.get("ty", "float")) is not None and ty_single(case.get("ty", "float")) else UNDERFLOW
